@@ -13,7 +13,7 @@ from attrs import field, frozen
 from attrs.validators import in_, instance_of
 
 from hpl.ast.base import HplAstObject
-from hpl.ast.expressions import HplExpression, HplThisMessage
+from hpl.ast.expressions import HplExpression, HplThisMessage, HplVarReference
 from hpl.ast.predicates import HplPredicate, HplVacuousTruth
 from hpl.errors import HplSanityError
 from hpl.types import TypeToken
@@ -133,7 +133,30 @@ class HplSimpleEvent(HplEvent):
     def __str__(self) -> str:
         alias = (' as ' + self.alias) if self.alias is not None else ''
         assert self.is_publish, f'event_type: {self.event_type}'
-        return f'{self.name}{alias} {self.predicate}'
+        predicate = self.predicate
+        if self.alias is not None and _only_expressible_with_alias(predicate):
+            predicate = predicate.replace_self_reference(HplVarReference(f'@{self.alias}'))
+        return f'{self.name}{alias} {predicate}'
+
+
+def _only_expressible_with_alias(predicate: HplPredicate) -> bool:
+    # The message itself used as a value (e.g., `yaw(@M)`) and a field named
+    # like a constant (e.g., `@M.E`) have no spelling without the alias.
+    if predicate.is_vacuous:
+        return False
+    for obj in predicate.condition.iterate():
+        if not isinstance(obj, HplExpression):
+            continue
+        if obj.is_accessor and obj.is_field and obj.message.is_value and obj.message.is_this_msg:
+            if obj.field in ('PI', 'INF', 'NAN', 'E'):
+                return True
+        for child in obj.children():
+            if isinstance(child, HplThisMessage):
+                if not (obj.is_accessor and (obj.is_field or obj.is_indexed) and obj.base_object() is child):
+                    return True
+                if obj.is_indexed and obj.index is child:
+                    return True
+    return False
 
 
 @frozen
